@@ -68,6 +68,11 @@ add('C19', 'exploration',
     'The verdict of one call is a before/after digest; the simulation decides which buffers are live and shared. Callables the binder cannot serve or that reject the generated arguments are listed/counted in the evidence, not counted as covered; inplace=True options are not exercised.',
     'deterministic simulation: shared-buffer monitor under a seeded scheduler + introspected toolbox task on live data', 'DESIGN.md section 2 C19')
 
+add('C05', 'exploration',
+    'Bounded liveness by seeded search: a motionless body at a seeded true attitude, exact accelerometer/magnetometer images in each filter\'s own convention, gyro noise only; each recursive filter (Madgwick, Mahony, EKF, UKF, AQUA, ROLEQ streamed; Complementary, FKF batch) is started 0-175 degrees from the truth through the route the class offers (q0, w0, first a-priori quaternion) with default and non-default gains, dt 2-50 ms, NED/ENU; the error history must be below the filter\'s tolerance from the budgeted sample on (eventually-always), end no worse than it started, and the e0=0 twin must stay at the truth.',
+    'Budgets come from a pinned table measured once on the repaired tree (x3 margin); tolerances are fixed formulas; the convention table is an assumption whose standing self-check is the e0=0 twin; cells needing >60000 samples are not exercised; UKF does not converge at all (4 open known findings).',
+    'deterministic simulation: time-stepped filter nodes against a stub world, bounded-liveness oracle over the recorded error history', 'DESIGN.md section 2 C05')
+
 def build():
     m = {
         'version': 1,
